@@ -35,7 +35,7 @@ CHECKS.update({
             "Functions of every e2e libfunc snippet and examples/ program (several optimization configurations, both metadata "
             "solvers) and every corelib #[test] are executed in the real cairo-vm through the runner's own entry code and hint "
             "processor, on inputs generated in-range from the Sierra parameter types and four gas budgets including 'exactly the "
-            "entry cost'. Held = no VM-level failure and steps <= gas/100+1 on every run observed whose program/trace uses audited "
+            "entry cost'; small coverage programs (dictionaries, u256/u128 helpers, casts, circuits, very large ap changes, bounded-int division by constants) have their first three scalar inputs swept over the whole boundary set (every 2^k, 2^k+-1, type bounds). Held = no VM-level failure and steps <= gas/100+1 on every run observed whose program/trace uses audited "
             "libfuncs only; the evidence lists the audited libfuncs that no run executed (blind spots).",
             "Trusted: cairo-vm, the runner's honest hint processor, the argument generator's notion of in-range values.",
             "DESIGN.md 3/C02"),
@@ -80,8 +80,9 @@ CHECKS.update({
             "(whitespace re-rolled, uniquely numbered comments injected, identifiers renamed to stress the line breaker, trailing "
             "commas dropped) under the default configuration, a sorting/merging-off configuration and random points of the option "
             "lattice; each output is re-parsed and re-formatted, and tokens, comments, mod declarations and expanded use paths are "
-            "compared. Held apart from the four recorded known findings (comments in the middle of constructs, blank line of a "
-            "moved use item, comment before the `;` of a macro rule).",
+            "compared; generated import blocks and generated programs are inputs too. The oracle tests itself at start-up against eight "
+            "deliberately broken formatters. Held apart from the six recorded known findings, all about comments in the middle of "
+            "constructs (two of them attributed by delta: the same text without the injected comments passes).",
             "Trusted: the repo's lexer for tokenisation on both sides; the deliberate canonicalisations of should_skip_terminal "
             "(trailing commas, `;` after block statements, `::` before generic args in type paths) are treated as layout.",
             "DESIGN.md 3/C11"),
@@ -97,7 +98,7 @@ CHECKS.update({
             "DESIGN.md 3/C12"),
     "C13": ("dbscen", "exploration",
             "runtime monitoring: incremental-vs-fresh equality oracle over recorded edit histories",
-            "Seeded histories of 14 (quick) or 30 (thorough) edits of 15 kinds are applied to one long-lived database with "
+            "Seeded histories of 14 (quick) or 30 (thorough) edits of 19 kinds (incl. pure permutations of members / lines / items) on the examples project, /verif's playground project and a playground with standing ownership errors (diagnostics with located notes) are applied to one long-lived database with "
             "different queries asked in between; at comparison points diagnostics (with locations) and Sierra are compared with a "
             "fresh database holding the same contents. salsa's `executing query` events prove reuse: the incremental side executed "
             "~0.5% of the fresh side's queries on the unchanged tree. Thorough tier: 1/16 of the quick histories are repeated "
@@ -115,14 +116,14 @@ CHECKS.update({
             "DESIGN.md 3/C16"),
     "C18": ("serde", "exploration",
             "runtime monitoring: round-trip equalities observed on real serializer/compiler executions",
-            "Every parseable Sierra program of the repository and the Sierra compiled from the e2e/examples snippets is pushed "
+            "Every parseable Sierra program of the repository, the Sierra compiled from the e2e/examples snippets and from generated programs (thorough: four configurations, and the whole corelib test suite as one program) is pushed "
             "through the text printer/parser, the felt252 serialization behind ContractClass, the versioned JSON, and compiled to "
-            "CASM in five id representations; texts, programs and CASM are compared.",
+            "CASM in five id representations; texts, programs and CASM are compared. Held apart from one recorded finding (debug names of closure types and of the functions generated for closures are not in the text grammar).",
             "Trusted: CanonicalReplacer as the canonical form the felt encoding is specified for.",
             "DESIGN.md 3/C18"),
     "C19": ("classes", "exploration",
             "runtime monitoring: structural invariants on live class objects + execution of every entry point from the class bytecode",
-            "All contracts of the Starknet test crate, all stored contract classes and seeded generated contracts are compiled; "
+            "All contracts of the Starknet test crate, all stored contract classes and seeded generated contracts (1-6 external functions over 14 body templates reaching every builtin incl. ec_op and the circuit builtins, optional constructor, 0-3 L1 handlers in seeded order) are compiled; "
             "each CASM class is checked against 8 invariants with an independent VM-decoder walk of the bytecode, and every entry "
             "point is executed in cairo-vm from the class's own bytecode with builtins in the declared order; wrong offsets, "
             "builtin-order slips or shifted code would surface as VM errors or pointers in foreign segments.",
@@ -131,7 +132,7 @@ CHECKS.update({
     "C20": ("dbscen", "exploration",
             "runtime monitoring: cached-vs-source equality oracle with a cache-hit counter hook",
             "Pairs of databases that differ only in the corelib's cache_file compile the examples project, single example / "
-            "bug-sample files and e2e snippets; diagnostics, Sierra and CASM must be equal. Hook H3 proves that lowerings were "
+            "bug-sample files and e2e snippets; and library crates other than the corelib (a hand-written feature library and generated library/dependent pairs) are compiled from source and from their own cache; diagnostics, Sierra and CASM must be equal. Hook H3 proves that lowerings were "
             "really served from the cache blob on one side and never on the other.",
             "Trusted: the cache blob is produced by the same build with the same settings.",
             "DESIGN.md 3/C20"),
@@ -140,10 +141,10 @@ CHECKS.update({
 CHECKS.update({
     "C01": ("generator", "exploration",
             "runtime monitoring: independent reference interpreter evaluated next to the real compile-and-run pipeline",
-            "Seeded well-typed programs of a Cairo subset are compiled by the real pipeline under three configurations and "
+            "Seeded well-typed programs of a Cairo subset (structs incl. nested members, enums, options, tuples, arrays, fixed-size arrays, loops with break / continue, early return, closures, if-let, compound and member assignment, mid-expression assignment, idiom functions that take aggregates apart and rebuild them, comparisons and arithmetic against the constants the optimizer special-cases) are compiled by the real pipeline under three configurations and "
             "executed in the VM on several argument vectors; the decoded value or the exact panic data is compared with a "
             "big-integer interpreter of the generator's own AST that never looks at Sierra or CASM. Held = the two agreed on every "
-            "(program, input, configuration) observed.",
+            "(program, input, configuration) observed, apart from one recorded finding (plain variable reads in tuple / fixed-size array literals are resolved late), which the generator keeps out of the random programs.",
             "Trusted: the reference interpreter (written from the language reference and the corelib's documented panic strings); "
             "the typed result decoder.",
             "DESIGN.md 3/C01"),
@@ -152,13 +153,13 @@ CHECKS.update({
             "A wrapper around the runner's honest hint processor records every CoreHint occurrence of an honest run and then, one "
             "faulty run per (occurrence, fault class), pre-writes mutated values into the hint's output cells. Every faulty run "
             "that still SUCCEEDS must produce the honest run's decoded result. All CoreHint kinds the workloads reach (27 of 28; "
-            "EvalCircuit is a blind spot) are faulted, with generic per-cell faults and coordinated alternative decompositions.",
+            "EvalCircuit is a blind spot) are faulted, with generic per-cell faults and coordinated alternative decompositions; a range-cast family (downcasts into ranges at, next to and across 2^128) is run on every boundary input.",
             "Trusted: cairo-vm as the verifier of the trace; single-occurrence faults only; syscall/cheatcode/entry-code hints "
             "excluded.",
             "DESIGN.md 3/C03"),
     "C05": ("metamorph", "exploration",
             "runtime monitoring: metamorphic comparison of executions across optimization configurations",
-            "The same programs (e2e / examples snippets on generated inputs, and the whole corelib test suite) are compiled under "
+            "The same programs (e2e / examples snippets and generated programs on generated inputs - every user function, not only main - and the whole corelib test suite) are compiled under "
             "a lattice of optimization / inlining / const-folding / match-threshold / solver configurations and run; decoded "
             "results and test verdicts must equal those of the optimizations-disabled build. Hook H2 shows which optimization "
             "phases actually changed the IR during the run.",
@@ -166,14 +167,14 @@ CHECKS.update({
             "DESIGN.md 3/C05"),
     "C06": ("opmatrix", "exploration",
             "runtime monitoring: big-integer model evaluated next to compiled one-operation programs; exhaustive over 8-bit operands for the listed operations",
-            "499 (type, operation) wrappers are compiled and run on the full boundary cross product plus random operands; add, sub "
+            "746 (type, operation) wrappers (incl. bounded-int division by 27 constants and constrain at the same boundaries) are compiled and run on every 2^k, 2^k+-1 of the type (unary) or on each of them against several partners (binary), on structured operands 2^a+-2^b+-c and random ones; add, sub "
             "and mul on u8 and i8 are run on ALL 65536 operand pairs in the quick tier, every binary operation on u8/i8 in the "
-            "thorough tier. The result (value, or panic vs value) is compared with ordinary integer arithmetic.",
+            "thorough tier. The result (value, or panic vs value) is compared with ordinary integer arithmetic; a VM error on an honest run is a violation.",
             "Trusted: the model (integer arithmetic, truncating signed division, mod-P felt arithmetic).",
             "DESIGN.md 3/C06"),
     "C07": ("constcheck", "exploration",
             "runtime monitoring: differential oracle between the compile-time evaluator and the run-time execution of the same expression",
-            "Seeded typed const-evaluable expressions are submitted as const items, as run-time twins with opaque arguments, and "
+            "Seeded typed const-evaluable expressions (operators, casts, const fn calls, DivRem::div_rem calls, struct / tuple / match forms) are submitted as const items, as run-time twins with opaque arguments, and "
             "as literal-inline functions with constant folding on and off; acceptance/rejection and values must agree with what "
             "the compiled twin computes in the VM.",
             "Trusted: the run-time execution as the reference; expressions the const evaluator does not support are outside the "
@@ -184,7 +185,7 @@ CHECKS.update({
             "Every error-free generated program must compile to Sierra, validate, get metadata and CASM under every configuration "
             "of the lattice, with the lowering validator (hook H2) accepting the IR after every optimization phase (~1.8 million "
             "validations per quick run); every program with one injected use-after-move / undropped value / double move must be "
-            "rejected.",
+            "rejected, and so must every program of an ownership matrix (7 value kinds x 6 move forms x 18 control-flow shapes x 4 use forms, undropped and hand-written shapes), each of which has a valid twin that must compile to CASM.",
             "Trusted: the generator's ownership tracking (it decides where a moved variable can be re-mentioned).",
             "DESIGN.md 3/C08"),
 })
